@@ -24,11 +24,11 @@ def boundary_budgets(scn, ops):
     return out
 
 
-LAMS = ['v => v + 1', 'v => t1()', 'v => [v, v] | map(w => w * 2)', 'v => v if v else 0', '(v, w) => v']
+LAMS = ['v => v + 1', 'v => t1()', 'v => [v, v] | map(w => w * 2)', 'v => v if v else 0', '(v, w) => v', 'v => f(v + 1)', 'v => [1, 2, 3, 4, 5, 6] | map(w => f(w))']
 USES = ['f(1)', '[1, 2, 3] | map(f)', 'hcall(f, 2)', 'sorted([3, 1, 2], f)', '[1, 2] | filter(f)', 't1()\nf(0)', 'g = f\ng(5)']
 
 
-def closure_sessions(seed, n):
+def closure_sessions(seed, n, more_calls=False):
     """Two- and three-call histories sharing one names mapping: a lambda defined by an
     earlier call is invoked (directly, through map/filter/sorted, through a host callback)
     by later calls under small budgets."""
@@ -37,7 +37,7 @@ def closure_sessions(seed, n):
     for i in range(n):
         lam = r.choice(LAMS)
         calls = [{'src': 'f = ' + lam, 'n': 0, 'max': r.choice([3, 4, 5, 100])}]
-        for _ in range(r.choice([1, 1, 2])):
+        for _ in range(r.choice([2, 3, 3] if more_calls else [1, 1, 2])):
             calls.append({'src': r.choice(USES), 'n': 0, 'max': r.choice([2, 3, 4, 5, 6, 8, 12, 30])})
         host = {'t1': {'h': 'probe', 'ret': Decimal(1), 'raises': False},
                 'hcall': {'h': 'call', 'mode': r.choice(['propagate', 'swallow'])}}
@@ -148,8 +148,9 @@ def probe_programs(seed, n, depth=3):
         hd = {'a': 1, '1': 2}
         host = {}
         for k in range(1, ctr[0] + 1):
-            o = r.choice(['one', 'zero', 'list', 'dict', 'raise', 'str', 'two', 'none'])
-            ret = {'one': 1, 'zero': 0, 'list': hl, 'dict': hd, 'raise': 0, 'str': 'a', 'two': Decimal(2), 'none': None}[o]
+            o = r.choice(['one', 'zero', 'list', 'dict', 'raise', 'str', 'two', 'none', 'etuple', 'tuple', 'estr', 'elist', 'false', 'fzero'])
+            ret = {'one': 1, 'zero': 0, 'list': hl, 'dict': hd, 'raise': 0, 'str': 'a', 'two': Decimal(2), 'none': None, 'etuple': (), 'tuple': (0,),
+                   'estr': '', 'elist': [], 'false': False, 'fzero': Decimal('0.0')}[o]
             host['t%d' % k] = {'h': 'probe', 'ret': ret, 'raises': o == 'raise'}
         out.append({'names': [{'y': 1, 'hl': hl, 'hd': hd, 'nn': [[1, 0, 2], [0, 1, 5]], 'nnn': [[[1, 0], [0, 1]], [[2, 1], [1, 0]]]}], 'host': host, 'calls': [{'src': src, 'n': 0, 'max': 300}]})
     return out
@@ -291,6 +292,8 @@ def nonmutator_calls(seed, n):
                  'nn': [[3, 1], [2]], 'm': {'k': [2, 1]},
                  'ik': r.choice([{1: 'x', 2: [2, 1]}, {2: 'b', 1: 'a', 'k': 3}, {-1: [1], 0: 'z'}, {7: {1: 2}, 'rows': {3: 'c', 2: 'b'}}])}
         names.update(exotic_host_objects(r))
+        names['rows'] = [[1, 'a'], [2, 'c'], [1, 'b'], [2, 'd'], [1, 'e']]
+        names['rd'] = {'p': 1, 'q': 2, 'r': 1, 's': 2}
         args = ['a', 'b', 'd', 's', 'n', 'nn', 'm', 'ik', 'ik', 'm["k"]', 'nn[0]', 'dd', 'od', 'st', 'dq', 'ho', 'reg', 'None', 'True', 'v => 0 - v', 'v => v', '(p, q) => q', 'v => len(v)', '"a"', '" "', '0', '1',
                 'v => b', '(p, q) => p + q', 'v => str(v)']
         def call(depth):
@@ -311,6 +314,11 @@ def nonmutator_calls(seed, n):
         lines = [call(2) for _ in range(r.randrange(1, 4))]
         if r.random() < 0.3:
             # the read-only accessors on host objects of unmodelled types, with present and absent keys
+            if r.random() < 0.4:
+                # sorting with keys that tie, with and without the reverse flag (rows and dict entries can be told apart)
+                lines.insert(r.randrange(len(lines) + 1), r.choice([
+                    'sorted(rows, v => v[0], True)', 'sorted(rows, v => v[0])', 'sorted(rows, v => 0, True)', 'rows | sorted(v => len(v[1]), True)',
+                    'sorted(rd, (k, v) => v, True)', 'sorted(rd, (k, v) => 0, True) | keys', 'sorted([1.0, 1, 2, 2.0], None, True)', 'sorted(["b", "a", "B"], v => lower(v), True)']))
             x = r.choice(['dd', 'od', 'reg', 'ho', 'st', 'dq', 'ik', 'd'])
             k = r.choice(['"missing"', '"x"', '"a"', '0', '7', 'None', '"b"'])
             lines.insert(r.randrange(len(lines) + 1), r.choice(['get(%s, %s)' % (x, k), '(%s | get(%s, 0))' % (x, k), 'get(%s, %s, [])' % (x, k),
@@ -327,7 +335,8 @@ C14_VALS = ['7', '"z"']
 
 C14_RAW = ['push(L, [])', 'push(L, {})', 'D["e"] = []', 'insert(L, 0, [])', 'L[0] = {}', 'push(L[0], 5)', 'L[0]["n"] = 1', 'D["e"] += [1]',
            'get(D, "zz", [])', 'push(get(D, "zz", []), 1)', '[1, 2] | map(v => push(L, []))', 'L | map(v => len(v) if v == [] else 0)',
-           'push(L[len(L) - 1], 7)', 'len(L[0])', 'L[0] == []', 'D | map((k, v) => v)', 'remove(L, [])', 'index_of(L, [])', '[] in L', '{} in L']
+           'remove(L, 1.5)', 'remove(L, 2.5)', 'push(L, 1.5)', 'index_of(L, 1.5)', 'remove(L, 1.0)', 'remove(L, True)', 'remove(D, 1)', '1.5 in L',
+           'remove(L, 2.0)', 'insert(L, 1, 2.5)', 'remove(L, "1")', 'push(L[len(L) - 1], 7)', 'len(L[0])', 'L[0] == []', 'D | map((k, v) => v)', 'remove(L, [])', 'index_of(L, [])', '[] in L', '{} in L']
 
 
 def c14_op_src(o):
